@@ -100,3 +100,81 @@ Example bad_schema_refuted :
   | Err _ => False
   end.
 Proof. vm_compute. split; reflexivity. Qed.
+
+(* ---- child level (wiring C06cp): the delete work is declared on the CHILD store mgr of emp ---- *)
+Definition c_l1 : id := [108; 49].
+Definition c_l2 : id := [108; 50].
+Definition c_m1 : id := [109; 49].
+Definition c_e2 : id := [101; 50].
+
+(* a manager m1: link collection of the child store (mgr.offices <-> loc.managers) from both sides, link collection of the
+   parent (emp.sites <-> loc.staff), fk index of the child store (mgr.site -> loc), set index of the child store (skills),
+   unique indexes of both levels; it is the head of l2 (fk index whose TARGET is the child store: the back-reference set
+   "heads" is kept for the child store) and the boss of e2 *)
+Definition chist1 : list tx :=
+  [ mkTx true [] [OCreate n_loc c_l1 false [(n_title, Some (v 1)); (n_head, None)] [(n_tagsx, [])];
+                  OCreate n_loc c_l2 false [(n_title, Some (v 2)); (n_head, None)] [(n_tagsx, [])]] false;
+    mkTx true [] [OCreate n_mgr c_m1 false [(n_name, Some (v 3)); (n_boss, None); (n_level, Some (v 4)); (n_site, Some c_l1)]
+                          [(n_roles, [v 5]); (n_skills, [v 6; v 7])]] false;
+    mkTx true [] [OCreate n_emp c_e2 false [(n_name, Some (v 8)); (n_boss, Some c_m1)] [(n_roles, []); (n_skills, [])]] false;
+    mkTx true [] [OAddLinks n_emp c_m1 n_sites [c_l1]; OAddLinks n_mgr c_m1 n_offices [c_l1];
+                  OAddLinks n_loc c_l2 n_managers [c_m1]] false;
+    mkTx true [] [OUpdate n_loc c_l2 [(n_title, Some (v 2)); (n_head, Some c_m1)] [] (Some [n_head])] false ].
+Definition cst1 : state := run_txs C06cp_schema 8 st_empty chist1.
+
+Example child_places_before :
+  eset cst1 n_loc c_l1 n_managers = [c_m1] /\ eset cst1 n_loc c_l2 n_managers = [c_m1] /\ eset cst1 n_loc c_l1 n_staff = [c_m1] /\
+  eset cst1 n_loc c_l1 n_siteMgrs = [c_m1] /\ eset cst1 n_emp c_m1 n_heads = [c_l2] /\ eset cst1 n_emp c_m1 n_offices = [c_l1; c_l2] /\
+  sbucket cst1 n_emp n_skills (v 6) = [c_m1] /\ al_get (v 4) (uidx cst1 n_emp n_level) = Some c_m1 /\
+  get_field C06cp_schema cst1 n_loc c_l2 n_head = FStr c_m1 /\ get_field C06cp_schema cst1 n_emp c_e2 n_boss = FStr c_m1.
+Proof. vm_compute. repeat split; reflexivity. Qed.
+
+(* the delete through the child store is refused while l2.head (restrict constraint ON THE CHILD STORE) references it *)
+Example child_delete_refused : delete_by_id C06cp_schema (mkOctx true []) 8 (cst1, []) n_mgr c_m1 = Err ERefExists.
+Proof. vm_compute. reflexivity. Qed.
+
+Definition chist2 : list tx := chist1 ++
+  [ mkTx true [] [OUpdate n_loc c_l2 [(n_title, Some (v 2)); (n_head, None)] [] (Some [n_head]);
+                  OUpdate n_emp c_e2 [(n_name, Some (v 8)); (n_boss, None)] [] (Some [n_boss])] false ].
+Definition cst2 : state := run_txs C06cp_schema 8 st_empty chist2.
+Definition cst3 : state := match delete_by_id C06cp_schema (mkOctx true []) 8 (cst2, []) n_emp c_m1 with Ok (s, _) => s | Err _ => cst2 end.
+
+Example child_delete_ok : exists evs, delete_by_id C06cp_schema (mkOctx true []) 8 (cst2, []) n_emp c_m1 = Ok (cst3, evs).
+Proof. eexists. vm_compute. reflexivity. Qed.
+
+(* the theorem applies (C06cp_schema_wf) ... *)
+Example child_not_mentioned : forall st' evs,
+  delete_by_id C06cp_schema (mkOctx true []) 8 (run_txs C06cp_schema 8 st_empty chist2, []) n_emp c_m1 = Ok (st', evs) ->
+  ~ mentions C06cp_schema st' (root_of C06cp_schema n_emp) c_m1.
+Proof.
+  intros st' evs H.
+  exact (delete_leaves_no_trace C06cp_schema 8 chist2 (mkOctx true []) 8 [] n_emp c_m1 st' evs C06cp_schema_wf H).
+Qed.
+
+(* ... and the computed state agrees: the places of BOTH levels are clean *)
+Example child_places_after :
+  get_ent cst3 n_emp c_m1 = None /\ eset cst3 n_loc c_l1 n_managers = [] /\ eset cst3 n_loc c_l2 n_managers = [] /\
+  eset cst3 n_loc c_l1 n_staff = [] /\ eset cst3 n_loc c_l1 n_siteMgrs = [] /\ sidx cst3 n_emp n_skills = [] /\
+  uidx cst3 n_emp n_level = [] /\ uidx cst3 n_emp n_name = [(v 8, c_e2)].
+Proof. vm_compute. repeat split; reflexivity. Qed.
+
+(* links of a child-level collection are symmetric and both ends live in the declaring stores (links_symmetric) *)
+Example child_links_symmetric :
+  (In c_l2 (eset cst1 (root_of C06cp_schema n_mgr) c_m1 n_offices) <-> In c_m1 (eset cst1 (root_of C06cp_schema n_loc) c_l2 n_managers)) /\
+  (In c_l2 (eset cst1 (root_of C06cp_schema n_mgr) c_m1 n_offices) ->
+     present C06cp_schema cst1 n_mgr c_m1 = true /\ present C06cp_schema cst1 n_loc c_l2 = true).
+Proof. apply (links_symmetric C06cp_schema 8 chist1 n_mgr n_offices n_loc n_managers c_m1 c_l2 C06cp_schema_wf). vm_compute. left. reflexivity. Qed.
+
+(* not vacuous at the child level: when the collection mgr.offices <-> loc.managers is declared on the child store only
+   (refused: child_link_one_sided_refused), deleting a location leaves its id in the link set of the manager *)
+Example child_bad_schema_refuted :
+  let sch := drop_links_of n_loc C06cp_schema in
+  let h := [ mkTx true [] [OCreate n_loc c_l1 false [(n_title, Some (v 1)); (n_head, None)] [(n_tagsx, [])]] false;
+             mkTx true [] [OCreate n_mgr c_m1 false [(n_name, Some (v 3)); (n_boss, None); (n_level, None); (n_site, None)] [(n_roles, []); (n_skills, [])]] false;
+             mkTx true [] [OAddLinks n_mgr c_m1 n_offices [c_l1]] false ] in
+  wf_notrace_b sch = false /\
+  match delete_by_id sch (mkOctx true []) 8 (run_txs sch 8 st_empty h, []) n_loc c_l1 with
+  | Ok (st', _) => get_ent st' n_loc c_l1 = None /\ eset st' (root_of sch n_mgr) c_m1 n_offices = [c_l1]
+  | Err _ => False
+  end.
+Proof. vm_compute. repeat split; reflexivity. Qed.
